@@ -17,6 +17,8 @@ theorem verdict : (classify Generated.factsC14).Sound (Holds (cfgOf Generated.fa
 #print axioms refutes_ttlFloor
 #print axioms ttl_floor
 #print axioms foreign_unlock_noop
+#print axioms waiter_variant
+#print axioms granted_when_ahead_gone
 #print axioms refutes_ticketIds
 
 end Hv.C14
